@@ -27,6 +27,7 @@ PINNED_ENV = {
 }
 
 EXIT_OK, EXIT_VIOLATION, EXIT_HARNESS = 0, 1, 2
+CAMPAIGN_WALL = {"quick": 600.0, "thorough": 5400.0}
 
 
 # --------------------------------------------------------------------------------------
@@ -356,7 +357,20 @@ def _worker_loop(engine, tier, seed, indices, run_timeout, want_logs):
     out = {"stats": Stats(), "runs": [], "violations": [], "harness": [], "samples": []}
     import random
 
-    for i in indices:
+    # Wall-clock guards of the harness itself (never an input of the simulation or of an oracle): a tree that is
+    # broken badly enough can make single runs explode (a disabled validator lets a metric correlate 1e8-sample
+    # impulse trains).  The VIOLATION lines found so far must still come out before the command's outer timeout,
+    # so a worker stops starting runs when its wall budget is spent or when runs keep timing out; whatever was
+    # not executed is reported as HARNESS-ERROR (exit 2 unless a violation was found: then exit 1).
+    wall_budget = float(os.environ.get("VERIF_CAMPAIGN_S") or CAMPAIGN_WALL.get(tier, 600.0))
+    t_start = time.monotonic()
+    timeouts = 0
+    for n_done, i in enumerate(indices):
+        if time.monotonic() - t_start > wall_budget or timeouts >= 2:
+            out["harness"].append({"run": i, "what": "campaign stopped early (%s): %d of this worker's %d runs not executed" % (
+                "runs keep timing out" if timeouts >= 2 else "wall budget of %.0f s spent" % wall_budget, len(indices) - n_done, len(indices)),
+                "trace": ""})
+            break
         rs = run_seed(seed, engine.PROP, i)
         try:
             plan = engine.gen_plan(random.Random(rs), tier, i)
@@ -368,6 +382,8 @@ def _worker_loop(engine, tier, seed, indices, run_timeout, want_logs):
         status, res = fork_call(engine.execute, (plan, want_logs), timeout=run_timeout)
         if status != "ok":
             out["harness"].append({"run": i, "what": status, "trace": scrub(str(res))[-3000:], "plan": plan})
+            if status == "timeout":
+                timeouts += 1
             continue
         out["stats"].merge(Stats.load(res["stats"]))
         rec = {"run": i, "seed": rs, "log": res["log_digest"], "events": res["n_events"], "aux": res.get("aux_digest")}
@@ -457,13 +473,18 @@ def run_campaign(engine, tier, seed, n_runs, workers=None, run_timeout=None, wan
 # minimisation
 # --------------------------------------------------------------------------------------
 class Budget(object):
-    def __init__(self, n):
+    def __init__(self, n, deadline=None):
         self.left = n
         self.used = 0
+        self.deadline = deadline
+
+    def expired(self):
+        return self.deadline is not None and time.monotonic() > self.deadline
 
 
 def reproduces(engine, plan, key, budget, timeout=None):
-    if budget.left <= 0:
+    if budget.left <= 0 or budget.expired():
+        budget.left = 0
         return False
     budget.left -= 1
     budget.used += 1
@@ -494,13 +515,13 @@ def ddmin_list(items, test, budget, protect=lambda it: False):
     return items
 
 
-def minimise(engine, plan, key, max_execs=400):
+def minimise(engine, plan, key, max_execs=400, deadline=None):
     """Engine-directed greedy shrinking: engine.shrink(plan, test, budget) returns a plan that
     is no larger; a candidate is accepted iff the same (class, site) recurs when it is executed
     in a fresh fork.  Iterated to a fixpoint of engine.size()."""
     import copy
 
-    budget = Budget(max_execs)
+    budget = Budget(max_execs, deadline)
 
     def test(p):
         return reproduces(engine, p, key, budget)
@@ -617,7 +638,7 @@ def write_evidence(prop, tier, seed, level, coverage, assumptions, wall_s, viola
 # --------------------------------------------------------------------------------------
 # the check driver
 # --------------------------------------------------------------------------------------
-def run_check(engine, tier, max_minimise=12):
+def run_check(engine, tier, max_minimise=8):
     """Run one property's campaign and report per the interface.  Returns the exit code."""
     t0 = time.time()
     seed = verif_seed()
@@ -664,10 +685,15 @@ def run_check(engine, tier, max_minimise=12):
             print("KNOWN-FINDING-ABSENT: property=%s class=%s site=%s [%s; not seen in this campaign]" % (prop, k[0], k[1], st))
     replay_paths = []
 
+    # minimisation is bounded in wall time as well as in executions: a badly broken tree produces dozens of
+    # violation keys, and the VIOLATION lines must be out long before the command's own timeout
+    # (wall time bounds only how far minimisation goes, never what is explored or judged)
+    min_deadline = time.monotonic() + float(os.environ.get("VERIF_MINIMISE_S") or (240.0 if tier == "quick" else 900.0))
+
     def _minimise_one(n, k):
         rec, v = by_key[k][0]
         plan = rec["plan"]
-        best, used = minimise(engine, plan, k) if n < max_minimise else (plan, 0)
+        best, used = minimise(engine, plan, k, deadline=min_deadline) if n < max_minimise else (plan, 0)
         status, res = fork_call(engine.execute, (best, False))
         if status != "ok" or not any(vkey(x) == k for x in res["violations"]):
             best, used = plan, 0
